@@ -418,10 +418,12 @@ Definition utf8_reparsed (s : bytes) : bool :=
   end.
 
 (** add_payload_field re-types a var-bytes cell: after [str::trim] the text is one of the keywords
-    or reads as an integer or a FINITE float under Rust's grammar. *)
+    or reads as an integer (u64 or i64) or a FINITE float under Rust's grammar. *)
+Definition is_some {A : Type} (o : option A) : bool := match o with Some _ => true | None => false end.
 Definition retype_candidate (s : bytes) : bool :=
   let t := utrim s in
   bytes_eqb t kw_true || bytes_eqb t kw_false || bytes_eqb t kw_null
+  || is_some (parse_u64 t) || is_some (parse_i64 t)
   || match parse_f64 t with Some b => f64_is_finite b | None => false end.
 
 (** the re-typing is visible: the cell does not come back as the same scalar *)
